@@ -17,6 +17,7 @@ import (
 	"strings"
 	"testing"
 	"time"
+	"unicode/utf8"
 
 	"pgregory.net/rapid"
 
@@ -392,6 +393,43 @@ func genState(t *rapid.T, s *Sub) {
 	}
 }
 
+// derivedPattern builds, three times out of ten, a literal pattern from the
+// value the expansion is applied to: a piece of it (the prefix for # ##, the
+// suffix for % %%, any piece for / //) with every special character escaped
+// by a backslash. Independent patterns rarely match values that hold
+// backslashes or glob characters at the right place.
+func derivedPattern(t *rapid.T, s *Sub, e Exp) (string, bool) {
+	if rapid.IntRange(0, 9).Draw(t, "derive") > 2 || e.HasIdx {
+		return "", false
+	}
+	val, found := "", false
+	for _, v := range s.Vars {
+		if v.Name == e.Name && v.Kind == "str" {
+			val, found = v.Str, true
+		}
+	}
+	if !found || val == "" || strings.ContainsAny(val, "\n\r") || !utf8.ValidString(val) {
+		return "", false
+	}
+	rs := []rune(val)
+	i := rapid.IntRange(0, len(rs)-1).Draw(t, "dfrom")
+	j := rapid.IntRange(i+1, len(rs)).Draw(t, "dto")
+	switch e.Op {
+	case "#", "##", "/#":
+		i = 0
+	case "%", "%%", "/%":
+		j = len(rs)
+	}
+	var sb strings.Builder
+	for _, r := range rs[i:j] {
+		if strings.ContainsRune("\\*?[]!^-'\"$}{/ \t`()|&;<>#~", r) {
+			sb.WriteByte('\\')
+		}
+		sb.WriteRune(r)
+	}
+	return sb.String(), true
+}
+
 func genSub(t *rapid.T) Sub {
 	var s Sub
 	genState(t, &s)
@@ -474,10 +512,16 @@ func genSub(t *rapid.T) Sub {
 		setName(genNameRef(t))
 		e.Op = rapid.SampledFrom([]string{"#", "##", "%", "%%"}).Draw(t, "op")
 		e.Arg = genPattern(t, true)
+		if p, ok := derivedPattern(t, &s, e); ok {
+			e.Arg = p
+		}
 	case "replace":
 		setName(genNameRef(t))
 		e.Op = rapid.SampledFrom([]string{"/", "//", "/#", "/%"}).Draw(t, "op")
 		e.Arg = genPattern(t, false)
+		if p, ok := derivedPattern(t, &s, e); ok {
+			e.Arg = p
+		}
 		if e.Arg != "" && rapid.IntRange(0, 4).Draw(t, "hasrepl") > 0 {
 			e.HasAr2 = true
 			e.Arg2 = genArgWord(t, 1, true)
